@@ -31,7 +31,14 @@ class FixSyntax:
                     msg = f"{e.filename}:{e.lineno} {e.message_}"
                 if tries < self.maxfixes:
                     tries += 1
-                    self.commenter.comment(e.lineno)
+                    try:
+                        self.commenter.comment(e.lineno)
+                    except IndentationError:
+                        # the logical line finder gives up on inconsistent
+                        # dedents; report it as an unfixable syntax error
+                        raise exceptions.ModuleSyntaxError(
+                            e.filename, e.lineno, f"Failed to fix error: {msg}"
+                        )
                     code = "\n".join(self.commenter.lines)
                 else:
                     raise exceptions.ModuleSyntaxError(
